@@ -1,3 +1,4 @@
+pub mod arenaconc;
 pub mod capture;
 pub mod normalize;
 pub mod prog;
@@ -44,6 +45,7 @@ pub fn by_name(name: &str) -> Option<Box<dyn Suite>> {
         "receiver" => Box::new(receiver::Receiver),
         "prog" => Box::new(prog::Prog),
         "capture" => Box::new(capture::Capture),
+        "arenaconc" => Box::new(arenaconc::ArenaConc),
         _ => return None,
     })
 }
